@@ -95,7 +95,7 @@ class C14(Prop):
         if self.phases:
             self.phases.mark("extra checks")
         budget = rc.ExtraBudget(tier, 30.0)
-        res = [cli_source(tier), real_timeouts(tier, budget)]
+        res = [program_timeout_sources(tier), cli_source(tier), real_timeouts(tier, budget)]
         if self.phases:
             self.phases.mark("end")
             res.append(self.phases.entry())
@@ -191,12 +191,136 @@ def real_timeouts(tier, budget):
                     "the two timing defects" % ("5" if strict else "15 (loaded machine margin)")}
 
 
+class _PCase:
+    id = "C14"
+    corr_module = "Corr.C14Corr"
+    case_type = "pcase"
+    preds = ("pcorr",)
+    shard_size = 400
+
+
+_PROG = {}
+
+
+def program_timeout_sources(tier):
+    """Timeout source at the Program level.  A task whose body is c.run(...) is run through the real
+    Program (parse, update_config, executor) for every combination of the five sources
+    {timeout= keyword, -T, INVOKE_TIMEOUTS_COMMAND, project invoke.yaml, collection configuration}; the
+    runner is the scripted one, so what is observed is the Timer the real start_timer arms (or not)."""
+    import contextlib
+    import io
+    import itertools
+    import shutil
+    from unittest import mock
+    from invoke import Config, Program
+    VAL = {"kwarg": 9, "cli": 7, "env": 3, "file": 5, "coll": 4}
+    base = rc.runner_class()
+    made = []
+
+    class Cap(base):
+        def __init__(self, context):
+            env = rc.Env([["exit", 0]])
+            super().__init__(context, env)
+            made.append(self)
+
+    class Cfg(Config):
+        @staticmethod
+        def global_defaults():
+            g = Config.global_defaults()
+            g["runners"]["local"] = Cap
+            return g
+
+    items, terms, fails = [], [], []
+    root = tempfile.mkdtemp(prefix="c14-prog-", dir=core.BUILD)
+    try:
+        combos = [set(c) for k in range(6) for c in itertools.combinations(sorted(VAL), k)]
+        combos.append({"cli0", "file"})            # -T 0 is dropped by `if command:`; the configured value stays
+        for n, srcs in enumerate(combos):
+            d = os.path.join(root, "p%d" % n)
+            os.mkdir(d)
+            with open(os.path.join(d, "ptasks.py"), "w") as f:
+                f.write("from invoke import Collection, task\nfrom harness.props import c14 as H\n\n"
+                        "@task\ndef t(c):\n    H._PROG['body'](c)\n\nns = Collection(t)\n"
+                        + ("ns.configure({'timeouts': {'command': %d}})\n" % VAL["coll"] if "coll" in srcs else ""))
+            if "file" in srcs:
+                with open(os.path.join(d, "invoke.yaml"), "w") as f:
+                    f.write("timeouts:\n  command: %d\n" % VAL["file"])
+            kwargs = {"hide": True, "in_stream": False}
+            if "kwarg" in srcs:
+                kwargs["timeout"] = VAL["kwarg"]
+            rec = {}
+
+            def body(c, kwargs=kwargs, rec=rec):
+                try:
+                    c.run("scripted", **kwargs)
+                except Exception as e:   # noqa
+                    rec["exc"] = type(e).__name__
+            _PROG["body"] = body
+            argv = ["inv", "-r", d, "-c", "ptasks"]
+            if "cli" in srcs:
+                argv += ["-T", str(VAL["cli"])]
+            if "cli0" in srcs:
+                argv += ["-T", "0"]
+            argv += ["t"]
+            environ = {k: v for k, v in os.environ.items() if not k.startswith("INVOKE_")}
+            if "env" in srcs:
+                environ["INVOKE_TIMEOUTS_COMMAND"] = str(VAL["env"])
+            del made[:]
+            outer = None
+            sys.modules.pop("ptasks", None)
+            with mock.patch.dict(os.environ, environ, clear=True), contextlib.redirect_stdout(io.StringIO()), \
+                    contextlib.redirect_stderr(io.StringIO()):
+                try:
+                    Program(config_class=Cfg).run(argv, exit=False)
+                except BaseException as e:   # noqa
+                    outer = type(e).__name__
+            for r in made:
+                with r._verif_env.cv:
+                    r._verif_env.abort = True
+                    r._verif_env.cv.notify_all()
+            timer = made[0]._verif_env.timer if made else None
+            got = None if timer is None else timer.interval
+            is_num = got is None or (isinstance(got, (int, float)) and not isinstance(got, bool))
+            lower = VAL["env"] if "env" in srcs else VAL["file"] if "file" in srcs else VAL["coll"] if "coll" in srcs else None
+            case = {"sources": sorted(srcs), "armed_interval": repr(got), "outer": outer, "ran": len(made)}
+            if len(made) != 1:
+                fails.append({"case": case, "what": "the task's run() was not reached exactly once"})
+                continue
+            try:
+                got_n = None if got is None else int(float(got))
+            except (TypeError, ValueError):
+                got_n = 99
+            items.append(case)
+            terms.append("(mkp %s %s %s %s %s)" % (
+                cases.opt_n(VAL["kwarg"] if "kwarg" in srcs else None),
+                cases.opt_n(VAL["cli"] if "cli" in srcs else 0 if "cli0" in srcs else None),
+                cases.opt_n(lower), cases.opt_n(got_n), "true" if is_num else "false"))
+    finally:
+        shutil.rmtree(root, ignore_errors=True)
+        sys.modules.pop("ptasks", None)
+    res = core.eval_shards(_PCase, terms, "prog")
+    for case, r in zip(items, res):
+        if r["pcorr"]:
+            continue
+        f = {"case": case, "what": "timeout in effect differs from 'keyword > -T > environment variable > project "
+                                   "file > collection configuration': Timer interval %s" % case["armed_interval"]}
+        srcs = set(case["sources"])
+        if "env" in srcs and not ({"kwarg", "cli"} & srcs) and case["armed_interval"] == repr(str(VAL["env"])):
+            f["finding"] = "F-C14c"
+        fails.append(f)
+    return {"name": "program-timeout-sources", "evaluations": len(combos), "failures": fails,
+            "note": "real Program.run over all 32 combinations of {timeout= keyword, -T, INVOKE_TIMEOUTS_COMMAND, "
+                    "project invoke.yaml, collection configuration} (+ -T 0 with a project file); observed: the "
+                    "Timer armed by the real start_timer inside the scripted runner; judged in Coq by "
+                    "Corr.C14Corr.pcorr (rule proved equal to the Program/option model: C14_timeout_source_program)"}
+
+
 TASKS = '''
 from invoke import task
 
 @task
 def nap(c):
-    c.run("echo napping; sleep 20", hide=True, in_stream=False)
+    c.run("echo napping; exec sleep 20", hide=True, in_stream=False)
 
 
 @task
@@ -221,6 +345,21 @@ def cli_source(tier):
             if want not in p.stdout:
                 fails.append({"case": {"args": args}, "what": "expected %s, got %r %r" % (want, p.stdout[:200],
                                                                                           p.stderr[-200:])})
+        # the timeout comes ONLY from the project's invoke.yaml: no -T, no keyword -- the sleeper is killed
+        evals += 1
+        open(os.path.join(d, "invoke.yaml"), "w").write("timeouts:\n  command: 1\n")
+        t0 = time.time()
+        try:
+            p = subprocess.run([sys.executable, "-m", "invoke", "nap"], cwd=d,
+                               env=dict(os.environ, PYTHONPATH=core.REPO), capture_output=True, text=True, timeout=40)
+            el = time.time() - t0
+            if p.returncode == 0 or el > 12:
+                fails.append({"case": {"args": ["nap"], "invoke.yaml": "timeouts.command: 1"},
+                              "what": "exit %s after %.1fs: %r" % (p.returncode, el, (p.stdout + p.stderr)[-200:])})
+        except subprocess.TimeoutExpired:
+            fails.append({"case": {"args": ["nap"], "invoke.yaml": "timeouts.command: 1"},
+                          "what": "exec sleep 20 under a configured timeout of 1 s still running after 40 s"})
+        os.unlink(os.path.join(d, "invoke.yaml"))
         evals += 1
         t0 = time.time()
         try:
